@@ -39,6 +39,10 @@ impl Env {
     }
 }
 
+/// the panic message without its variable parts (identifies the panic site)
+fn panic_site(m: &str) -> String {
+    m.chars().filter(|c| !c.is_ascii_digit()).take(60).collect()
+}
 fn list<T: ToString>(v: &[T]) -> String {
     v.iter().map(|x| x.to_string()).collect::<Vec<_>>().join(" ")
 }
@@ -147,9 +151,25 @@ struct Ctx<'a> {
     env: &'a Env,
     thorough: bool,
     class: u64,
+    /// failures recorded so far per (oracle key, input class)
+    recorded: std::collections::BTreeMap<String, u32>,
 }
 
 impl Ctx<'_> {
+    /// Reports a constructor / draw panic.  The recorder keeps at most 200 failures per run, so the
+    /// (frequent) failures of one class — same oracle key, same panic site, same input-class flags —
+    /// are recorded 6 times and counted afterwards: a flood of one known class must not push a
+    /// different failure out of the report.
+    fn fail_class(&mut self, key: &str, class: &str, what: impl FnOnce() -> String) {
+        let n = self.recorded.entry(format!("{key}|{class}")).or_default();
+        *n += 1;
+        if *n <= 6 {
+            self.rec.oracle(false, key, what);
+        } else {
+            self.rec.oracle_checks += 1;
+            self.rec.count(&format!("oracle_fail_not_recorded(same class as 6 recorded):{key}|{class}"));
+        }
+    }
     fn begin(&mut self, tag: &str, st: &[u64]) {
         self.rec.begin_case(tag);
         self.class = fnv(0, tag);
@@ -231,7 +251,7 @@ fn fa1_case(cx: &mut Ctx, rng: &mut Rng, shape: &str, st: &[u64], k: u64, partit
                 cx.rec.step(&format!("fa1 {k}"), &format!("fa1 kprime {kp_ref} req {}", list(&req_ref)).trim_end().to_string());
                 cx.rec.step(&format!("fa1p {k}"), "panic");
                 let d8 = trailing_bin_empty(&w_ref, kp_ref);
-                cx.rec.oracle(false, "fa1p-construct-panics", || format!("{desc}: constructor panicked: {m}; empty-trailing-bin={d8} (fallback total {} over k'={kp_ref} bins)", w_ref.iter().map(|&x| x as u128).sum::<u128>()));
+                cx.fail_class("fa1p-construct-panics", &format!("{}|{d8}", panic_site(&m)), || format!("{desc}: constructor panicked: {m}; empty-trailing-bin={d8} (fallback total {} over k'={kp_ref} bins)", w_ref.iter().map(|&x| x as u128).sum::<u128>()));
                 cx.rec.end_case(fnv(cx.class, "panic"), false);
             }
         }
@@ -261,7 +281,7 @@ fn fa1_case(cx: &mut Ctx, rng: &mut Rng, shape: &str, st: &[u64], k: u64, partit
             (Err(m), _) | (_, Err(m)) => {
                 cx.rec.count("fa1w:ctor-panic");
                 cx.rec.step(&format!("fa1 {k}"), "panic");
-                cx.rec.oracle(false, "fa1w-construct-panics", || format!("{desc}: constructor panicked: {m}"));
+                cx.fail_class("fa1w-construct-panics", &panic_site(&m), || format!("{desc}: constructor panicked: {m}"));
                 cx.rec.end_case(fnv(cx.class, "panic"), false);
             }
         }
@@ -340,7 +360,12 @@ fn partition_case(cx: &mut Ctx, rng: &mut Rng, shape: &str, st: &[u64], bins: us
             cx.rec.count("part:ctor-panic");
             cx.rec.step(&format!("degenerate s {bins}"), "degenerate true");
             let positive = st.iter().all(|&s| s > 0);
-            cx.rec.oracle(!positive, "partition-construct-panics", || format!("{desc}: constructor panicked: {m}; empty-trailing-bin={d8}"));
+            if !positive {
+                cx.rec.count("part:ctor-panic-with-zero-stakes(outside the property)");
+                cx.rec.end_case(fnv(cx.class, "panic0"), false);
+                return;
+            }
+            cx.fail_class("partition-construct-panics", &format!("{}|{d8}", panic_site(&m)), || format!("{desc}: constructor panicked: {m}; empty-trailing-bin={d8}"));
             cx.rec.end_case(fnv(cx.class, "panic"), false);
         }
     }
@@ -391,7 +416,7 @@ fn fa2_case(cx: &mut Ctx, rng: &mut Rng, shape: &str, st: &[u64], k: u64) {
             } else {
                 cx.rec.count("fa2:round-borderline(not compared)");
             }
-            cx.rec.oracle(false, "fa2-construct-panics", || format!("{desc}: constructor panicked: {m}; sum-round-exceeds-k={d9}"));
+            cx.fail_class("fa2-construct-panics", &format!("{}|{d9}", panic_site(&m)), || format!("{desc}: constructor panicked: {m}; sum-round-exceeds-k={d9}"));
             cx.rec.end_case(fnv(cx.class, "panic"), false);
         }
     }
@@ -452,7 +477,7 @@ fn turbine_sampler_case(cx: &mut Ctx, rng: &mut Rng, shape: &str, st: &[u64], fa
         }
         (Err(m), _) | (_, Err(m)) => {
             cx.rec.count("turbinesampler:ctor-panic");
-            cx.rec.oracle(false, "turbinesampler-construct-panics", || format!("{desc}: constructor panicked: {m}; n<=2={}", n <= 2));
+            cx.fail_class("turbinesampler-construct-panics", &format!("{}|{}", panic_site(&m), n <= 2), || format!("{desc}: constructor panicked: {m}; n<=2={}", n <= 2));
             cx.rec.end_case(fnv(cx.class, "panic"), false);
         }
     }
@@ -487,7 +512,12 @@ fn decay_case(cx: &mut Ctx, rng: &mut Rng, shape: &str, st: &[u64], num: u64, de
                         b.reset();
                         cx.rec.count(if feasible { "decay:draw-panic-feasible" } else { "decay:draw-panic-infeasible(k>n*cap)" });
                         // only a defect when a committee of that size exists at all
-                        cx.rec.oracle(!feasible, "decay-sample-panics", || {
+                        if !feasible {
+                            cx.rec.oracle(true, "decay-sample-panics", String::new);
+                            continue;
+                        }
+                        let ratio = { let mx = *st.iter().max().unwrap_or(&1); let mn = st.iter().copied().filter(|&x| x > 0).min().unwrap_or(1); mx / mn >= 1000 };
+                        cx.fail_class("decay-sample-panics", &format!("{}|{ratio}", panic_site(&m)), || {
                             let mut sorted: Vec<u64> = st.to_vec();
                             sorted.sort();
                             let pos_min = sorted.iter().copied().find(|&x| x > 0).unwrap_or(1);
@@ -526,7 +556,7 @@ fn main() {
     let sk = signature::SecretKey::new(&mut rng);
     let vsk = aggsig::SecretKey::new(&mut rng);
     let env = Env { pk: sk.to_pk(), vpk: vsk.to_pk() };
-    let mut cx = Ctx { rec: Recorder::new(), env: &env, thorough: args.thorough, class: 0 };
+    let mut cx = Ctx { rec: Recorder::new(), env: &env, thorough: args.thorough, class: 0, recorded: Default::default() };
 
     let mut ks: Vec<u64> = vec![1, 2, 3, 10, 64, 100, 200];
     ks.push(rng.range(4, 300));
